@@ -1,6 +1,7 @@
 """C19 Block pool never loses or duplicates a block (DESIGN.md 4/C19)."""
 import re
 from .common import *
+from .paths import PathEval
 from ..engine import AnalysisError, show, strip, short, walk, last_seg, tree_calls
 
 PROP = "C19"
@@ -69,7 +70,8 @@ def run(ctx, F):
     for b, t, g in rows:
         s = show(t)
         is_some = t and t[0] == "agg" and t[1][2] == "Some"
-        cnt = pop.cfg.weighted_path_counts(subs, start=0, end=b)
+        # feasible paths only: a return of Some(x) that follows `if let Some(x) = helper()` is not reached from the helper's None exits
+        cnt = PathEval(pop, {}).path_counts(set(subs), b)
         if cnt is None:
             continue
         want = (1, 1) if is_some else (0, 0)
@@ -87,7 +89,8 @@ def run(ctx, F):
     prs = live_calls(push, q=BQ + "push_relaxed")
     first = [c for c in prs if "worker_local_freed_blocks" in show(strip(push.flow.arg_tree(c, 0)))]
     fresh = [c for c in prs if show(strip(push.flow.arg_tree(c, 0))).startswith("BlockQueue::new")]
-    edges = branch_edges(push, r"is_err\(BlockQueue::push_relaxed", True)
+    # the arm where the local queue was full: is_err() == true, is_ok() == false, or a match on Err
+    edges = branch_edges(push, r"is_err\(BlockQueue::push_relaxed", True) + branch_edges(push, r"is_ok\(BlockQueue::push_relaxed", False) + branch_edges(push, r"^BlockQueue::push_relaxed\(", "Err")
     okn = len(first) == 1 and len(fresh) == 1 and bool(edges) and all(push.cfg.must_pass([fresh[0].bb], start=s) for a, s in edges)
     ctx.judge(okn, "C19.no-loss", "overflowing push stores the block into a fresh queue", expected="on the arm where the local queue is full every path passes push_relaxed(block) on BlockQueue::new()",
               found="push_relaxed sites: local=%d fresh=%d" % (len(first), len(fresh)), where=where(push), key="C19.no-loss|fresh")
@@ -111,7 +114,17 @@ def run(ctx, F):
               where=where(fl), key="C19.no-loss|flush")
     fa = F.fn(BP + "flush_all")
     fc = live_calls(fa, q=BP + "flush")
-    ctx.judge(len(fc) == 1 and any(p.val == "Some" for p in guards(fa, fc[0].bb)) and "next" in show(strip(fa.flow.arg_tree(fc[0], 1))), "C19.no-loss", "flush_all flushes every worker's queue",
+    okfa = len(fc) == 1 and any(p.val == "Some" for p in guards(fa, fc[0].bb)) and "next" in show(strip(fa.flow.arg_tree(fc[0], 1)))
+    if not fc:
+        # the same loop as an iterator adaptor: (0..len).for_each(|i| self.flush(i))
+        fe = [c for c in live_calls(fa, name="for_each")]
+        for cl in closures_of(F, fa):
+            cc = live_calls(cl, q=BP + "flush")
+            if len(fe) == 1 and len(cc) == 1 and cl.cfg.must_pass([cc[0].bb]) and strip(cl.flow.arg_tree(cc[0], 1)) == ("arg", 2):
+                rng = show(strip(fa.flow.arg_tree(fe[0], 0)))
+                okfa = re.match(r"^ops::Range\{0, .*len\(.*worker_local_freed_blocks.*\)\}$", rng) is not None and fa.cfg.must_pass([fe[0].bb]) is not None
+                fc = cc
+    ctx.judge(okfa, "C19.no-loss", "flush_all flushes every worker's queue",
               expected="flush(i) for every i in 0..worker_local_freed_blocks.len()", found=str(len(fc)), where=where(fa), key="C19.no-loss|flush_all")
 
     # ---- C19.atomic-pop
@@ -133,8 +146,13 @@ def run(ctx, F):
             rows = ret_table(c)
             somes = [(b, t, g) for b, t, g in rows if t and t[0] == "agg" and t[1][2] == "Some"]
             nones = [(b, t, g) for b, t, g in rows if t and t[0] == "agg" and t[1][2] == "None"]
-            okc = bool(somes) and bool(nones) and all("Sub" in show(t) and "arg2" in show(t) for b, t, g in somes) and all(any("Gt" in show(p.tree) and p.val is True for p in g) for b, t, g in somes)
-        ctx.judge(okc, "C19.atomic-pop", "the cursor is decremented only when positive", expected="closure: if i > 0 { Some(i - 1) } else { None }", found="closures=%d" % len(clo), where=where(qp),
+            POS = {("(arg2 Gt 0)", True), ("(0 Lt arg2)", True), ("(arg2 Ne 0)", True), ("(0 Ne arg2)", True), ("(arg2 Eq 0)", False), ("(0 Eq arg2)", False), ("(arg2 Ge 1)", True), ("(1 Le arg2)", True),
+                   ("(arg2 Le 0)", False), ("(arg2 Lt 1)", False)}
+            okc = bool(somes) and bool(nones) and all(re.match(r"^option::Option::Some\{\(arg2 Sub 1\)\}$", show(strip(t))) for b, t, g in somes) and all(any((show(p.tree), p.val) in POS for p in g) for b, t, g in somes)
+            # the same decision made by the standard library: |i| i.checked_sub(1)
+            if not okc and rows and all(re.match(r"^(usize|u32|u64)::checked_sub\(arg2, 1\)$", show(strip(t))) and not g for b, t, g in rows):
+                okc = True
+        ctx.judge(okc, "C19.atomic-pop", "the cursor is decremented only when positive", expected="closure: if i > 0 { Some(i - 1) } else { None }  (or i.checked_sub(1))", found="closures=%d" % len(clo), where=where(qp),
                   key="C19.atomic-pop|closure")
 
     # ---- C19.head-exclusive / lock order
